@@ -137,6 +137,10 @@ def run_case(case):
     env, M = sim.boolev_list(qf.expressions, names, lenient=True)
     if any(b not in env for b in qf.returns.bitvec):
         return {"status": "skipped", "rows": 0, "nontrivial": False, "outcome": "open"}
+    import re
+    if re.search(r"\*\* 3|a \* a \+", case["src"]) or sum(len(str(e)) for s, e in qf.expressions) > 2500:
+        # cubic and higher products of adders (a ** 3, a * a + a on 3-4 bits): the polynomial has thousands of terms
+        return {"status": "skipped", "rows": 0, "nontrivial": False, "outcome": "too-large-expression", "counters": {"too_large_expression": 1}}
     rows = 1 << n
     count = np.zeros(rows)
     support = set()
@@ -210,28 +214,43 @@ def run_case(case):
             model = qf.to_bqm("pq_model")
             mvars = model.poly.variables()
             pr = pyref.Program(case["src"])
-            sampleset = []
-            for r in range(min(rows, 64)):
-                s = {nm: (r >> i) & 1 for i, nm in enumerate(names)}
-                for v in mvars:
-                    s.setdefault(v, 0)
-                sampleset.append(s)
-            dec = decode_samples(qf, sampleset)
-            if len(dec) != len(sampleset):
-                bad.append({"format": "decode_samples", "why": "%d decoded samples for %d samples" % (len(dec), len(sampleset))})
-            else:
+            # (a) samples that spell every argument bit; (b) samples that, like a real sampler's, only contain the model's
+            # variables: the bits the model does not mention are filled in by random.randint, pinned here to 0 and then to 1
+            import random as _random
+            mention = [nm in mvars for nm in names]
+            for mode in ("all", "fill0", "fill1"):
+                sampleset = []
+                for r in range(min(rows, 64)):
+                    s = {nm: (r >> i) & 1 for i, nm in enumerate(names) if mode == "all" or mention[i]}
+                    for v in mvars:
+                        s.setdefault(v, 0)
+                    sampleset.append(s)
+                fill = 1 if mode == "fill1" else 0
+                real_randint = _random.randint
+                _random.randint = lambda a, b, _f=fill: _f
+                try:
+                    dec = decode_samples(qf, sampleset)
+                finally:
+                    _random.randint = real_randint
+                if len(dec) != len(sampleset):
+                    bad.append({"format": "decode_samples", "why": "%d decoded samples for %d samples" % (len(dec), len(sampleset))})
+                    break
                 for r, d in enumerate(dec):
                     p = 0
                     for a, t in zip(pr.argnames, pr.argtypes):
                         w = t.width()
-                        ref = pyref.decode_value(t, [(r >> (p + i)) & 1 for i in range(w)])
+                        bits = [((r >> (p + i)) & 1) if (mode == "all" or mention[p + i]) else fill for i in range(w)]
+                        ref = pyref.decode_value(t, bits)
                         p += w
                         if a not in d.sample or not values.same(t, d.sample[a], ref, loose_bool=True):
-                            bad.append({"format": "decode_samples", "why": "sample %d: argument %s decoded as %s, the sample spells %s" % (
-                                r, a, values.show(d.sample.get(a)), values.show(ref))})
+                            bad.append({"format": "decode_samples", "why": "sample %d (%s): argument %s decoded as %s, the sample spells %s" % (
+                                r, "all bits present" if mode == "all" else "only model variables present, missing bits filled with %d" % fill,
+                                a, values.show(d.sample.get(a)), values.show(ref))})
                             break
                     if bad:
                         break
+                if bad:
+                    break
         except pyref.Unsupported:
             pass
         except Exception as e:
